@@ -92,9 +92,10 @@ def run_case(spec, k, target):
         ps = [0.01, 0.5, 1.0, 7.3]
         def pred(x):
             out = []
+            fn = x.model.loading if x.model.calculates == 'loading' else x.model.pressure   # the closed formula, no solver
             for p in ps:
                 try:
-                    out.append(float(x.model.loading(p)))
+                    out.append(float(fn(p)))
                 except Exception as e:  # noqa
                     out.append(type(e).__name__)
             return out
@@ -194,6 +195,13 @@ def gen_specs(tier, seed):
             d['via'] = 'frame'
             d['index'] = list(range(5, 5 + len(d['p'])))
         specs.append(s)
+    # row labels are not part of the model: a frame with duplicate labels is judged by the property oracle only
+    s = cc.gen_spec(rnd, 'json', cls='point')
+    d = s['data']
+    d['p'], d['l'], d['cols'], d['branch'], d['via'] = [1.0, 2.0, 3.0], [1.0, 2.0, 3.0], {}, 'ads', 'frame'
+    d['index'] = [0, 0, 1]
+    s['nomodel'] = True
+    specs.append(s)
     return specs
 
 
@@ -218,6 +226,8 @@ def explore(rep, tier, seed):
     # ---------------- correspondence (model executed in Coq)
     tbl = cc.ads_canon_table()
     terms = []
+    results_all = results
+    results = [r for r in results_all if not r['spec'].get('nomodel')]
     for r in results:
         o0 = r['o0']
         if r['exp'] != 'Ok':
@@ -257,6 +267,7 @@ def explore(rep, tier, seed):
     # ---------------- property oracle on the implementation
     hist = {}
     nontrivial = set()
+    results = results_all
     for r in results:
         spec, o0 = r['spec'], r['o0']
         key = spec['cls']
